@@ -679,7 +679,7 @@ Proof.
 Qed.
 
 (* ================= nesting depth (the stack clause of C02 for relationship fields) ================= *)
-Transparent bump skip_ws error expect in_node out_of_fuel.
+Transparent bump skip_ws error expect in_node out_of_fuel version_text.
 
 Definition rdle (k : nat) (l : list rtree) : Prop := Forall (fun e => depth e <= k) l.
 
@@ -778,6 +778,12 @@ Proof.
   intros t Ht. cbv zeta. apply keeps_profile_loop; [lia|]. apply keeps_bump. exact Ht.
 Qed.
 
+Lemma keeps_version_text k : 1 <= k -> keeps k version_text.
+Proof.
+  intros Hk s H. unfold version_text. destruct (cur_is s IDENT); [|apply keeps_error; [lia|exact H]]. cbv zeta.
+  destruct (cur_is (bump s) COLON); [|apply keeps_bump; exact H].
+  apply keeps_expect; [lia|]. apply keeps_bump, keeps_bump. exact H.
+Qed.
 Lemma keeps_parse_relation k : 3 <= k -> keeps k parse_relation.
 Proof.
   intros Hk. rewrite (ltac:(reflexivity) : parse_relation = in_node RELATION (fun st =>
@@ -793,7 +799,7 @@ Proof.
   assert (H3 : rdle 2 (out (rel_version (rel_after_name (expect IDENT s))))).
   { unfold rel_version. destruct (peek_is _ L_PARENS); [|exact H2]. cbv zeta.
     apply (keeps_in_node 2 1); [lia| |apply keeps_skip_ws; exact H2].
-    intros t Ht. cbv zeta. apply keeps_expect; [lia|]. apply keeps_expect; [lia|]. apply keeps_skip_ws.
+    intros t Ht. cbv zeta. apply keeps_expect; [lia|]. apply keeps_skip_ws. apply keeps_version_text; [lia|]. apply keeps_skip_ws.
     apply keeps_constraint_node; [lia|]. apply keeps_skip_ws, keeps_bump. exact Ht. }
   unfold rel_archs. destruct (peek_is _ L_BRACKET); [|exact H3]. cbv zeta.
   apply (keeps_in_node 2 1); [lia| |apply keeps_skip_ws; exact H3].
@@ -840,4 +846,4 @@ Proof.
   destruct (out (in_node ROOT body s0)) as [|x [|y l]] eqn:Eo; try discriminate.
   intros H. inversion H; subst. inversion Hk; assumption.
 Qed.
-Opaque bump skip_ws error expect in_node out_of_fuel.
+Opaque bump skip_ws error expect in_node out_of_fuel version_text.
